@@ -13,6 +13,7 @@ import (
 	"regexp"
 	"sort"
 	"strings"
+	"time"
 
 	"golang.org/x/perf/benchfmt"
 	"golang.org/x/perf/benchmath"
@@ -219,6 +220,19 @@ func runPipeline(d Defaults, flagArgs []string) *Run {
 
 // runBinary runs a real benchstat binary in dir and returns stdout, stderr, exit code.
 func runBinary(bin, dir string, env []string, args ...string) (stdout, stderr []byte, code int) {
+	// a binary that cannot be started (code -1: e.g. a concurrent check run is rebuilding it)
+	// says nothing about benchstat: retry a few times before reporting it
+	for try := 0; try < 8; try++ {
+		stdout, stderr, code = runBinaryOnce(bin, dir, env, args...)
+		if code != -1 {
+			return
+		}
+		time.Sleep(500 * time.Millisecond)
+	}
+	return
+}
+
+func runBinaryOnce(bin, dir string, env []string, args ...string) (stdout, stderr []byte, code int) {
 	cmd := exec.Command(bin, args...)
 	cmd.Dir = dir
 	cmd.Env = append(os.Environ(), env...)
